@@ -655,6 +655,12 @@ def r_stack_monotone(ctx, rep, rule):
         if selfty in ("&mut " + STACK_ADT,):
             for bb, j, s in f.stmts():
                 l = s["lhs"]
+                if l["l"] == 1 and l["p"] == ["*"]:
+                    n += 1
+                    rep.fail(rule, "%s|%s|replace-self" % (rule, f.short), "%s replaces the whole Stack (`*self = ..`): the new vector "
+                             "has its initial length, shorter than a continuation saved earlier, whose restoration then panics in "
+                             "split_at_mut" % f.short, [s["loc"]])
+                    continue
                 if l["l"] == 1 and [e.get("n") for e in l["p"] if isinstance(e, dict)] == ["stack"]:
                     n += 1
                     key = "%s|%s|assign-stack" % (rule, f.short)
